@@ -2239,7 +2239,9 @@ func repoTagHandler(c web.C, w http.ResponseWriter, r *http.Request) {
 	// create new branch (will just version node if branch name is the same as the parent)
 	newuuid, err := datastore.NewVersion(uuid, jsonData.Note, branch, &uuidTag)
 	if err != nil {
+		// Don't go on to commit an unrelated node that happens to be named by the tag.
 		BadRequest(w, r, err)
+		return
 	} else {
 		w.Header().Set("Content-Type", "application/json")
 		fmt.Fprintf(w, "{%q: %q}", "child", newuuid)
